@@ -350,7 +350,7 @@ func dohRun() {
 	limit := int(mod_doh.VerifMaxPostMsgLength())
 	parallel(0, func(int) func([]byte) {
 		up := newUpstream()
-		fetcher := mod_doh.NewDnsClient(&mod_doh.DnsConf{Address: up.pc.LocalAddr().String(), RetryMax: 0, Timeout: 3000})
+		fetcher := mod_doh.NewDnsClient(&mod_doh.DnsConf{Address: up.pc.LocalAddr().String(), RetryMax: 0, Timeout: 10000})
 		return func(line []byte) {
 			var c dohCase
 			if err := json.Unmarshal(line, &c); err != nil {
@@ -576,12 +576,12 @@ func dohOne(c *dohCase, limit int, up *upstream, fetcher *mod_doh.DnsClient) vh.
 	before := atomic.LoadInt64(&up.n)
 	var ferr error
 	var frsp *bfe_http.Response
-	pan, fin := vh.GuardTimeout(10*time.Second, func() { frsp, ferr = fetcher.Fetch(req2) })
+	pan, fin := vh.GuardTimeout(30*time.Second, func() { frsp, ferr = fetcher.Fetch(req2) })
 	if pan != "" {
 		return fail("panic", pan)
 	}
 	if !fin {
-		return fail("hang", "Fetch did not return within 10s")
+		return fail("hang", "Fetch did not return within 30s")
 	}
 	sent := atomic.LoadInt64(&up.n) - before
 	var wireFwd []byte
